@@ -132,6 +132,14 @@ func obsTerm(op string, i int, iok bool, sh, ref, un string) string {
 	return fmt.Sprintf("Ob (%s) %s %s %s %s", op, optZ(i, iok), sh, ref, un)
 }
 
+func sortInts(a []int) {
+	for i := 1; i < len(a); i++ {
+		for j := i; j > 0 && a[j] < a[j-1]; j-- {
+			a[j], a[j-1] = a[j-1], a[j]
+		}
+	}
+}
+
 func isBad(s string) bool { return s == "RPanic" || strings.HasSuffix(s, "false false)") || s == "RInvalid" }
 
 func genCont(r *rand.Rand, kind string, thorough bool) vh.Case {
@@ -216,6 +224,10 @@ func runMap(r *rand.Rand, cfg contCfg, steps int, emit emitFn) {
 	}
 	un := cache.NewSingleMap()
 	pool := genPool(r, cfg.xh, cfg.n, 3+r.Intn(7), -1)
+	if r.Intn(4) == 0 {
+		// keys whose bytes are adjacent windows of one caller-owned arena (Bs implementers)
+		pool = arenaPool(r, 3+r.Intn(6))
+	}
 	do := func(m cache.MapFacade, op int, k pkey, v int) string {
 		switch op {
 		case 0:
@@ -389,6 +401,56 @@ func runLRU(r *rand.Rand, cfg contCfg, rm *remap.ReMap, isTiny bool, capacity in
 		}
 	}
 	var script [][2]int // queued (operation, pool index): read the oldest entry, add another key, ask for the oldest again
+	// eviction block on one shard: empty it, fill it to its capacity with unit sizes, touch the LEAST recently used
+	// entry with Exist / Peek / Get, insert one more key of the same shard, then ask for the two candidates
+	byShard := map[int][]int{}
+	evictBlock := func() [][2]int { return nil }
+	if pressure {
+		steps += 18
+		need := int(pSize) + 1
+		full := -1
+		for tries := 0; tries < 400 && full < 0; tries++ {
+			byShard = map[int][]int{}
+			for i, k := range pool {
+				if t, ok := safeIndex(rm, cfg.xh, k.v); ok {
+					byShard[t] = append(byShard[t], i)
+					if len(byShard[t]) >= need {
+						full = t
+					}
+				}
+			}
+			if full < 0 {
+				k := intKey(r.Intn(10), uint64(16+tries))
+				pool = append(pool, mkPKey(k))
+			}
+		}
+		if full >= 0 && pSize >= 2 {
+			evictBlock = func() [][2]int {
+				var shards []int
+				for t, l := range byShard {
+					if len(l) >= need {
+						shards = append(shards, t)
+					}
+				}
+				sortInts(shards)
+				ks := append([]int(nil), byShard[shards[r.Intn(len(shards))]]...)
+				r.Shuffle(len(ks), func(a, b int) { ks[a], ks[b] = ks[b], ks[a] })
+				var sc [][2]int
+				for _, k := range ks {
+					sc = append(sc, [2]int{4, k})
+				}
+				for i := 0; i < int(pSize); i++ {
+					sc = append(sc, [2]int{3, ks[i]})
+				}
+				sc = append(sc, [2]int{[]int{2, 2, 2, 1, 0}[r.Intn(5)], ks[0]}, [2]int{3, ks[int(pSize)]})
+				for _, k := range []int{ks[0], ks[1]} {
+					sc = append(sc, [2]int{[]int{1, 2}[r.Intn(2)], k})
+				}
+				return append(sc, [2]int{2, ks[0]}, [2]int{2, ks[1]})
+			}
+			script = evictBlock()
+		}
+	}
 	for s := 0; s < steps; s++ {
 		ki := r.Intn(len(pool))
 		op := []int{0, 0, 1, 2, 3, 3, 3, 3, 4}[r.Intn(9)]
@@ -397,6 +459,9 @@ func runLRU(r *rand.Rand, cfg contCfg, rm *remap.ReMap, isTiny bool, capacity in
 		if pressure {
 			op = []int{0, 0, 1, 1, 1, 2, 3, 3, 3, 3, 3, 4}[r.Intn(12)]
 			sz = []int{1, 1, 1, 1, 1, 2}[r.Intn(6)]
+			if len(script) == 0 && r.Intn(8) == 0 {
+				script = evictBlock()
+			}
 			if len(script) == 0 && len(recent) >= 2 && r.Intn(4) == 0 {
 				old := recent[r.Intn((len(recent)+1)/2)]
 				script = [][2]int{{[]int{0, 1, 1, 2}[r.Intn(4)], old}, {3, r.Intn(len(pool))}, {[]int{1, 2}[r.Intn(2)], old}}
